@@ -50,7 +50,7 @@ def mk_sock(E):
     return sock, q, started
 
 
-@harness('c05.send_frame', ['C05', 'C01'], functions=[BASE + '.send_frame'],
+@harness('c05.send_frame', ['C05', 'C01', 'C08'], functions=[BASE + '.send_frame'],
          assumptions=['asyncio.Queue modelled as FIFO of item ids (put_nowait appends, get_nowait pops the head)'])
 def send_frame(E):
     sock, q, started = mk_sock(E)
@@ -80,9 +80,18 @@ def emit_setup(E):
     st = {'started': started, 'fragments': []}
 
     def isinst(E_, obj, cls):
-        if cls.name == 'FrameFragmentMixin' and '_id' in obj.attrs:
+        # queued sources are arbitrary frames: every class test on them has an arbitrary (but per-source fixed) answer;
+        # the classes the library distinguishes are related as in frame.py: request frames are fragmentable
+        if '_id' not in obj.attrs:
+            raise Unsupported('isinstance of %r with %s' % (obj, cls.name))
+        if cls.name == 'FrameFragmentMixin':
             return mk_bool(FRAGMENTABLE(obj.attrs['_id']))
-        raise Unsupported('isinstance of queue item with %s' % cls.name)
+        fn = z3.Function('q.isa.' + cls.name, z3.IntSort(), z3.BoolSort())
+        t = fn(obj.attrs['_id'])
+        if cls.name in ('RequestResponseFrame', 'RequestStreamFrame', 'RequestChannelFrame', 'RequestFireAndForgetFrame', 'PayloadFrame',
+                        'RequestFrame', 'FragmentableFrame'):
+            E_.path.axiom(z3.Implies(t, FRAGMENTABLE(obj.attrs['_id'])))
+        return mk_bool(t)
     E.opaque_isinstance = isinst
 
     def next_fragment(E_, obj, method, args, kwargs):
@@ -143,7 +152,7 @@ def suspension(E, sock, q, st, emitted):
     return on_yield
 
 
-@harness('c05.emit', ['C05', 'C01', 'C09'], functions=[GET_NEXT], replay='c05_emit',
+@harness('c05.emit', ['C05', 'C01', 'C09', 'C08'], functions=[GET_NEXT], replay='c05_emit',
          assumptions=['QueuePeekable.peek is used through its contract: returns the head without removing it (verified separately: c05.peek)',
                       'get_next_fragment of the queued source is used through its K-FRAG contract (C03)',
                       'L-QUEUE (emission legality at every step => per-stream order and fragment contiguity of the wire log) is a '
@@ -167,7 +176,7 @@ def emit(E):
             z3.And(SEQ(head) < SEQ(z3.Select(s['arr0'], I(j))), z3.Not(z3.Select(st['started'], z3.Select(s['arr0'], I(j))))))
 
 
-@harness('c05.emit.inv', ['C05', 'C01', 'C09'], functions=[GET_NEXT], replay='c05_emit',
+@harness('c05.emit.inv', ['C05', 'C01', 'C09', 'C08'], functions=[GET_NEXT], replay='c05_emit',
          assumptions=['as c05.emit'])
 def emit_inv(E):
     sock, q, st, log, transport = emit_setup(E)
@@ -207,7 +216,9 @@ def _emit_bounded(n):
             it = SOpaque('qitem', 'item%d' % i, attrs={'stream_id': E.input('stream[%d]' % i, E.fresh_int('stream%d' % i, 0, 7)),
                                                       'seq': E.fresh_int('seq%d' % i), 'sent_future': None,
                                                       'fragmentable': E.input('fragmentable[%d]' % i, E.fresh_bool('fragmentable%d' % i)),
+                                                      'is_request': E.input('is_request[%d]' % i, E.fresh_bool('is_request%d' % i)),
                                                       'started': E.input('started[%d]' % i, E.fresh_bool('started%d' % i))})
+            E.assume(z3.Implies(B(it.attrs['is_request']), B(it.attrs['fragmentable'])))      # request frames are fragmentable
             items.append(it)
             E.call(E.getattr(q, 'put_nowait'), [it])
 
@@ -220,7 +231,9 @@ def _emit_bounded(n):
                                            z3.And(I(x.attrs['seq']) < I(y.attrs['seq']), z3.Not(B(y.attrs['started'])))))
             return z3.And(conj) if conj else z3.BoolVal(True)
         E.assume(invq(items))
-        E.opaque_isinstance = lambda E_, obj, cls: obj.attrs['fragmentable'] if cls.name == 'FrameFragmentMixin' else False
+        REQ = ('RequestResponseFrame', 'RequestStreamFrame', 'RequestChannelFrame', 'RequestFireAndForgetFrame')
+        E.opaque_isinstance = lambda E_, obj, cls: (obj.attrs['fragmentable'] if cls.name == 'FrameFragmentMixin' else
+                                                    (obj.attrs.get('is_request', False) if cls.name in REQ else False))
 
         def next_fragment(E_, obj, method, args, kwargs):
             obj.attrs['started'] = True
@@ -238,7 +251,7 @@ def _emit_bounded(n):
 
 
 for _n in range(1, 5):
-    harness('c05.emit.bounded[queue_length=%d]' % _n, ['C05'], kind='bounded', functions=[GET_NEXT], replay='c05_emit',
+    harness('c05.emit.bounded[queue_length=%d]' % _n, ['C05', 'C08', 'C09', 'C01'], kind='bounded', functions=[GET_NEXT], replay='c05_emit',
             assumptions=['BOUNDED instance (queue length <= 4, quantifiers expanded) used only to obtain concrete counter-models; '
                          'the unbounded obligation is c05.emit.inv'])(_emit_bounded(_n))
 
@@ -271,8 +284,9 @@ def _contains_after_head(n):
         for v in vals:
             E.call(E.getattr(q, 'put_nowait'), [SOpaque('item', 'i', attrs={'stream_id': v})])
         sid = E.fresh_int('sid')
-        sock = new_obj(E, 'rsocket/rsocket_server.py::RSocketServer', _send_queue=q)
-        r = E.call(E.getattr(sock, '_is_stream_queued_behind_head'), [sid])
+        # the queue operation itself, with a predicate of the contract (how the endpoint uses it is part of the emission contract)
+        pred = Builtin('predicate', lambda item: mk_bool(I(item.attrs['stream_id']) == I(sid)))
+        r = E.call(E.getattr(q, 'contains_after_head'), [pred])
         E.cover('checked')
         want = z3.Or([I(v) == I(sid) for v in vals[1:]]) if n > 1 else z3.BoolVal(False)
         E.prove('contains_after_head:true_iff_some_item_behind_the_head_matches', B(E.truth(r)) == want)
@@ -281,7 +295,7 @@ def _contains_after_head(n):
 
 
 for _n in range(0, 5):
-    harness('c05.contains_after_head[queue_length=%d]' % _n, ['C05'], kind='bounded',
+    harness('c05.contains_after_head[queue_length=%d]' % _n, ['C05', 'C08', 'C09', 'C01'], kind='bounded',
             functions=[QP + '.contains_after_head', BASE + '._is_stream_queued_behind_head'],
             assumptions=['BOUNDED stand-in: the scan over the deque is checked for queue lengths 0..4 with symbolic stream ids'])(
         _contains_after_head(_n))
@@ -379,7 +393,7 @@ def _queue_mutators(E):
     return out
 
 
-@harness('c05.queue_frame_condition.bounded', ['C05', 'C10', 'C09'], kind='bounded', functions=[BASE + '.send_frame'],
+@harness('c05.queue_frame_condition.bounded', ['C05', 'C10', 'C09', 'C08', 'C01'], kind='bounded', functions=[BASE + '.send_frame'],
          assumptions=['BOUNDED stand-in for operations on the send queue that have no contract of their own (none on the unchanged '
                       'tree): queue of up to 3 sources with symbolic streams / started flags; integer arguments symbolic'])
 def queue_frame_condition(E):
